@@ -38,6 +38,9 @@ CLAUSE → THEOREM TABLE (review R1).  Standing hypotheses = the property's quan
   make_derived_metric = the equivalent MetricFrame call   derived_eq_metricframe, derived_eq, derived_finish_eq,
       derived_make_eq / _ok_iff / _fails, derived_route, derived_bad_method, derived_nameless_ok,
       derived_call_eq_finish (the whole __call__: routing of sample_weight / method, then the MetricFrame call)
+  the MetricFrame accessor each function calls (default errors= / method=, cache slot, the (method, errors) the slot was
+      computed with by `_populate_results`, `_extract_result`)   LIFTED (`Generated/PopulateSrc.lean`, `FrameSrc.extract_result`):
+      applyAgg_lifted_eq_model, run_lifted_eq_model, src_accessor_calls
 Consistency corollaries (C03X.lean): eodds_ge_eopp, dp_ratio_one_iff_difference_zero, dp_ranges, eopp_eodds_ranges.
 -/
 import FairModel.Lemmas.Fairness
